@@ -177,10 +177,30 @@ func c15Source(m *c15Mod, isMain bool, mainStmts []string) string {
 	return sb.String()
 }
 
+// c15Enum maps a run index to (module count, adjacency bitmask): all digraphs (self-loops
+// included) on 1, 2, 3 and 4 modules in turn — 2 + 16 + 512 + 65536 graphs.
+func c15Enum(idx, maxK int) (int, uint64, bool) {
+	for k := 1; k <= maxK && k <= 4; k++ {
+		n := 1 << uint(k*k)
+		if idx < n {
+			return k, uint64(idx), true
+		}
+		idx -= n
+	}
+	return 0, 0, false
+}
+
 func runC15(t *zsim.Tape, cfg *hlib.Config) *hlib.Outcome {
 	sc := &c15Scenario{}
-	out := &hlib.Outcome{Scenario: sc}
+	out := &hlib.Outcome{Scenario: sc, Note: map[string]int{}}
 	k := 1 + t.Draw(len(c15Names))
+	enumK, enumAdj, enumerated := 0, uint64(0), false
+	if mk := cfg.Int("enum", 0); mk > 0 {
+		if ek, adj, ok := c15Enum(cfg.RunIndex, mk); ok {
+			k, enumK, enumAdj, enumerated = ek, ek, adj, true
+			out.Note[fmt.Sprintf("enumerated-digraphs-on-%d-modules", ek)]++
+		}
+	}
 	// which names are used
 	for i := 0; i < k; i++ {
 		n := c15Names[i]
@@ -203,10 +223,14 @@ func runC15(t *zsim.Tape, cfg *hlib.Config) *hlib.Outcome {
 	cyclic := t.Draw(4) == 0
 	for i, m := range sc.Mods {
 		for j, dep := range sc.Mods {
-			if !cyclic && j <= i {
+			if !enumerated && !cyclic && j <= i {
 				continue
 			}
-			if t.Draw(3) == 0 {
+			edge := t.Draw(3) == 0
+			if enumerated {
+				edge = enumAdj&(1<<uint(i*enumK+j)) != 0
+			}
+			if edge {
 				imp := c15Imp{Target: dep.Name}
 				if t.Draw(4) == 0 { // selective import of a prefix of the exports
 					ex := exportsOf(dep)
